@@ -11,7 +11,7 @@ import (
 
 func init() {
 	register("C14", propMeta{
-		Explanation: "E-PANIC + E-CONST + E-GUARD over the broker's HTTP surface. O-0: the routes registered in main are enumerated from the http.Handle/HandleFunc calls. O-1: from every handler entry point (ServeHTTP methods, handler functions reached through the handler field, metric callbacks) no repository code path contains an explicit panic, Fatal/Exit or undischarged single-value assertion; the Prometheus With() panics are discharged by O-1b label-set agreement (literal key set of every prometheus.Labels{...} equals the label names given to that vector's constructor). O-2: a request body is only ever read through http.MaxBytesReader(w, r.Body, 100000) and a failed read answers 4xx without reaching the IPC layer. O-3: after each IPC call the success output is behind err == nil and every error path writes a 4xx/5xx status before returning. O-4: the legacy shim and the versioned path share the single ClientOffers call site. O-5 no unbounded wait inside a handler: the channel-rendezvous obligations of C04 (reply obligation, abandonable peer, claimed means committed, deregistration, lock hygiene) are evaluated here as well, under rule names prefixed O-5/C04. A handler panic makes net/http drop the connection without a response, so each clause is a necessary condition of 'every request gets a well-formed response'. Added after the second seeding round: O-6/C02 the Broker loop's poll goroutine works on its own poll (no captured loop variable) and the broker rows of the guarded-by table hold (an unlocked iteration of the id map is a fatal runtime error for the whole process). Added after the third seeding round: O-1d every status the legacy shim writes is a constant or comes from a table whose miss case yields a valid status. Added after the fourth seeding round: O-1e/O-1f the index and nil-error obligations on everything reachable from a handler; O-1g a WriteTimeout or TimeoutHandler of the broker's server is a constant above ClientTimeout and ProxyTimeout; O-6/C20 the broker's guarded-by rows (an unlocked map write is a fatal 'concurrent map writes' that answers nobody). Added after the fifth seeding round: O-1h no handler sets Content-Length or Transfer-Encoding; O-7/C19 zeroMetrics re-creates every per-period map NewMetrics created (a nil map panics in the next poll with the metrics lock held); the legacy path is confined to bodies starting with '{'. Added after the sixth seeding round and the mutation audit: O-8/C20 no channel of the broker is both closed and sent on without a common mutex (a send on a closed channel panics in the handler).",
+		Explanation: "E-PANIC + E-CONST + E-GUARD over the broker's HTTP surface. O-0: the routes registered in main are enumerated from the http.Handle/HandleFunc calls. O-1: from every handler entry point (ServeHTTP methods, handler functions reached through the handler field, metric callbacks) no repository code path contains an explicit panic, Fatal/Exit or undischarged single-value assertion; the Prometheus With() panics are discharged by O-1b label-set agreement (literal key set of every prometheus.Labels{...} equals the label names given to that vector's constructor). O-2: a request body is only ever read through http.MaxBytesReader(w, r.Body, 100000) and a failed read answers 4xx without reaching the IPC layer. O-3: after each IPC call the success output is behind err == nil and every error path writes a 4xx/5xx status before returning. O-4: the legacy shim and the versioned path share the single ClientOffers call site. O-5 no unbounded wait inside a handler: the channel-rendezvous obligations of C04 (reply obligation, abandonable peer, claimed means committed, deregistration, lock hygiene) are evaluated here as well, under rule names prefixed O-5/C04. A handler panic makes net/http drop the connection without a response, so each clause is a necessary condition of 'every request gets a well-formed response'. Added after the second seeding round: O-6/C02 the Broker loop's poll goroutine works on its own poll (no captured loop variable) and the broker rows of the guarded-by table hold (an unlocked iteration of the id map is a fatal runtime error for the whole process). Added after the third seeding round: O-1d every status the legacy shim writes is a constant or comes from a table whose miss case yields a valid status. Added after the fourth seeding round: O-1e/O-1f the index and nil-error obligations on everything reachable from a handler; O-1g a WriteTimeout or TimeoutHandler of the broker's server is a constant above ClientTimeout and ProxyTimeout; O-6/C20 the broker's guarded-by rows (an unlocked map write is a fatal 'concurrent map writes' that answers nobody). Added after the fifth seeding round: O-1h no handler sets Content-Length or Transfer-Encoding; O-7/C19 zeroMetrics re-creates every per-period map NewMetrics created (a nil map panics in the next poll with the metrics lock held); the legacy path is confined to bodies starting with '{'. Added after the sixth seeding round and the mutation audit: O-8/C20 no channel of the broker is both closed and sent on without a common mutex (a send on a closed channel panics in the handler). O-9/O-10/O-11 format strings, decoder errors and failure branches of the broker's functions that report errors.",
 		NotDecided:  "net/http's own behaviour, byte-level well-formedness of responses, timing (C04), panics inside third-party libraries other than the label-mismatch panic of prometheus With().",
 		Assumptions: []string{"third-party/stdlib callees do not panic except prometheus With()/GetMetricWith on label mismatch", "net/http recovers handler panics by closing the connection (the behaviour the property forbids)"},
 	}, runC14)
@@ -90,7 +90,29 @@ func isWriteHeader(in ssa.Instruction, lo, hi int64) bool {
 		return false
 	}
 	k, ok := constInt(ci.Common().Args[0])
-	return ok && k >= lo && k <= hi
+	if ok {
+		return k >= lo && k <= hi
+	}
+	// a status merged from constants (the result of a small mapping function): it counts for the range when some
+	// member lies in it and every other member is no status at all (0: "carry on", excluded by the caller's own
+	// test before the call)
+	if ph, isPhi := strip(ci.Common().Args[0]).(*ssa.Phi); isPhi && len(ph.Edges) > 0 {
+		in := false
+		for _, e := range ph.Edges {
+			kk, isK := constInt(strip(e))
+			if !isK {
+				return false
+			}
+			switch {
+			case kk >= lo && kk <= hi:
+				in = true
+			case kk >= 100 && kk <= 999:
+				return false // a valid status outside the range asked for
+			}
+		}
+		return in
+	}
+	return false
 }
 
 func runC14(c *Ctx) {
@@ -104,6 +126,65 @@ func runC14(c *Ctx) {
 	c.prefix = "O-8/C20:"
 	c.checkNoSendRacesClose("O-8 no send races with a close", p.FnsIn("broker"))
 	c.prefix = ""
+	// what a handler writes is what it was given: no relayed text is used as a format, and no decoder's error is dropped
+	c.checkNoDataAsFormat("O-9 relayed text is never a format string", p.FnsIn("broker"))
+	c.checkDecodeErrorsConsumed("O-10 a decoding step's error is part of the verdict", p.FnsIn("broker"))
+	c.checkErrorBranchesLeaveMode("O-11 a failed step is not carried on with", p.FnsIn("broker"), true)
+	// once a handler has written an error status it is done with the request: no call into the IPC layer and no
+	// second status is reachable from there (a dropped return after the status line processes a request the
+	// handler has already refused, and the superfluous second WriteHeader is ignored by net/http)
+	{
+		ruleE := "O-2b an error status ends the handling"
+		nSites := 0
+		perFn := map[*ssa.Function]int{}
+		for _, fn := range p.FnsIn("broker") {
+			isHandler := false
+			for _, par := range fn.Params {
+				if typeString(par.Type()) == "net/http.ResponseWriter" {
+					isHandler = true
+				}
+			}
+			if !isHandler || fn.Blocks == nil {
+				continue
+			}
+			allInstrs(fn, func(in ssa.Instruction) {
+				if !isWriteHeader(in, 400, 599) {
+					return
+				}
+				nSites++
+				perFn[fn]++
+				var hit ssa.Instruction
+				seen := map[*ssa.BasicBlock]bool{}
+				var walk func(b *ssa.BasicBlock, from int)
+				walk = func(b *ssa.BasicBlock, from int) {
+					for j := from; j < len(b.Instrs) && hit == nil; j++ {
+						x := b.Instrs[j]
+						if isWriteHeader(x, 100, 599) {
+							hit = x
+							return
+						}
+						if ci, ok := x.(ssa.CallInstruction); ok {
+							if callee := staticCallee(ci); callee != nil && callee.Signature.Recv() != nil && typeNameOfStruct(callee.Signature.Recv().Type()) == "IPC" {
+								hit = x
+								return
+							}
+						}
+					}
+					for _, sb := range b.Succs {
+						if !seen[sb] && hit == nil {
+							seen[sb] = true
+							walk(sb, 0)
+						}
+					}
+				}
+				walk(in.Block(), instrIndex(in)+1)
+				c.check(hit == nil, ruleE, fmt.Sprintf("%s: nothing is processed after the error status #%d", p.FnName(fn), perFn[fn]), p.instrPos(in), "", "after this error status the handler can still "+map[bool]string{true: "reach " + p.instrPos(hitOr(hit, in)), false: ""}[hit != nil]+" (a call into the IPC layer or another status line): the request is processed although it has been refused, and its outcome cannot be reported any more")
+			})
+		}
+		if nSites == 0 {
+			c.undecided(ruleE, "error statuses written by handlers", "-", "no WriteHeader with a constant 4xx/5xx status found")
+		}
+	}
 	// ---- O-0 routes ----
 	var entries []*ssa.Function
 	routes := callsTo(mainFn, "net/http.Handle", "net/http.HandleFunc")
@@ -278,6 +359,39 @@ func runC14(c *Ctx) {
 			for _, ci := range callsTo(fn, "(net/http.ResponseWriter).WriteHeader") {
 				nWH++
 				good := validStatusValue(p, fn, ci.Common().Args[0], ci.Block(), map[ssa.Value]bool{})
+				if !good {
+					// a value merged from constants (the result of a small mapping function), where every constant
+					// that is not a valid status is excluded by a test of the value on the way to this call
+					// (status != 0)
+					if ph, isPhi := strip(ci.Common().Args[0]).(*ssa.Phi); isPhi && len(ph.Edges) > 0 {
+						all := true
+						ciInstr, _ := ci.(ssa.Instruction)
+						for _, e := range ph.Edges {
+							k, isK := constInt(strip(e))
+							if !isK {
+								all = false
+								break
+							}
+							if k >= 100 && k <= 599 {
+								continue
+							}
+							excl := condEdges(fn, false, func(a Atom) bool {
+								if a.Op != token.EQL {
+									return false
+								}
+								if k2, ok2 := constInt(a.Y); ok2 && k2 == k && strip(a.X) == ssa.Value(ph) {
+									return true
+								}
+								k2, ok2 := constInt(a.X)
+								return ok2 && k2 == k && strip(a.Y) == ssa.Value(ph)
+							})
+							if len(excl) == 0 || ciInstr == nil || reachableWithout(fn, ciInstr, excl) != nil {
+								all = false
+							}
+						}
+						good = all
+					}
+				}
 				c.check(good, "O-1d status codes are constants", p.FnName(fn)+" writes a constant status", p.instrPos(ci), "", "the status handed to WriteHeader is not a compile-time constant between 100 and 599 (nor a table entry of such constants taken only when present): net/http panics on an invalid code (0 from a table miss) and the client gets no response")
 			}
 		}
@@ -837,4 +951,11 @@ func tableOfStatuses(p *Prog, m ssa.Value) bool {
 		}
 	}
 	return n > 0
+}
+
+func hitOr(a, b ssa.Instruction) ssa.Instruction {
+	if a != nil {
+		return a
+	}
+	return b
 }
